@@ -10517,6 +10517,8 @@ class Data_Edit_Desc_C1002(Base):
             # match w . d [ E e ]
             # Format descriptor could also be 'ES' or 'EN'
             my_str = strip_string[1:].lstrip().upper()
+            if not my_str:
+                return None
             char2 = my_str[0]
             if char == "E" and char2 in ["S", "N"]:
                 my_str = my_str[1:].lstrip()
